@@ -1,5 +1,10 @@
 package main
 
+import (
+	"fmt"
+	"time"
+)
+
 // Cache-level families of C05, C06, C07, C08, C13 and C16.
 
 func genC06(level int) []*CacheScen {
@@ -192,6 +197,22 @@ func init() {
 		// all call sequences (E2) with a recording callback installed / swapped
 		for _, s := range genSeqCache("C06", lvlOf(tier)) {
 			out = append(out, s)
+		}
+		// the janitor as remover: the real janitor goroutine driven through a captured ticker, callbacks swapped
+		for twin := 0; twin < 2; twin++ {
+			for _, cfg := range []CacheCfg{{Twin: twin, HasIvl: true, Ivl: time.Second}, {Twin: twin, UseDefault: true, Def: 2, Ivl: time.Second}} {
+				for _, cb := range []bool{false, true} {
+					name := fmt.Sprintf("C06/janitor/%s/callback=%v", cfg, cb)
+					def := durNoExp
+					if cfg.UseDefault {
+						def = normDef(cfg.Def)
+					}
+					ev := append(c15Alphabet(1), CIn{Op: CSetCallback, CB: 1})
+					sp := newCacheSeqSpec(name, cfg, def, cb, ev, 4, "C06")
+					sp.janitor = true
+					out = append(out, &Scenario{Name: name, Prop: "C06", Seq: sp, ExpectOutcomes: 2})
+				}
+			}
 		}
 		return out
 	}
